@@ -1153,4 +1153,56 @@ theorem fileFromBytes_write_ins_many {bs : Bytes} {f : File} (h : fileFromBytes 
   unfold fileFromBytes parseEvents
   rw [hw, hparse, ← hR']; rfl
 
+/-! ### a decidable check for the shape -/
+
+/-- is `A` the list `E` with newline events (`\n` or `\r\n`) inserted right after some of its
+headers, each time before something that is not written starting with a newline? -/
+def insCheck : List Event → List Event → Bool
+  | [], [] => true
+  | e :: E, a :: A =>
+    if e == a then
+      (match e, A with
+       | .header _, .newline t :: A' =>
+         insCheck E A || ((t == [10] || t == [13, 10]) && (takeNewlines1 (render A')).isNone && insCheck E A')
+       | _, _ => insCheck E A)
+    else false
+  | _, _ => false
+
+theorem InsAfterHeaders.cons {rend : List Event → Bytes} {E A : List Event} (x : Event)
+    (h : InsAfterHeaders rend E A) : InsAfterHeaders rend (x :: E) (x :: A) := by
+  induction h with
+  | refl => exact .refl _
+  | @step pre post hd t _ ht hY ih =>
+    have : InsAfterHeaders rend (x :: E) ((x :: pre) ++ .header hd :: .newline t :: post) :=
+      .step (pre := x :: pre) ih ht hY
+    exact this
+
+theorem insCheck_sound : ∀ (E A : List Event), insCheck E A = true → InsAfterHeaders render E A := by
+  intro E
+  induction E with
+  | nil =>
+    intro A h
+    cases A with
+    | nil => exact .refl _
+    | cons a A => simp [insCheck] at h
+  | cons e E ih =>
+    intro A h
+    cases A with
+    | nil => simp [insCheck] at h
+    | cons a A =>
+      simp only [insCheck] at h
+      split at h
+      · rename_i hea
+        have hea' : e = a := by simpa using hea
+        subst hea'
+        split at h
+        · rename_i hh t A'
+          simp only [Bool.or_eq_true, Bool.and_eq_true, beq_iff_eq, Option.isNone_iff_eq_none] at h
+          rcases h with h | ⟨⟨ht, hY⟩, h⟩
+          · exact (ih _ h).cons _
+          · have h1 := (ih _ h).cons (Event.header hh)
+            exact .step (pre := []) h1 ht hY
+        · exact (ih _ h).cons _
+      · simp at h
+
 end GixModel.C26
